@@ -96,6 +96,26 @@ Theorem C05_colval_seqkey_flag : forall (tc : bool) (k k2 : kind) (raw : pyv),
 Proof. exact colval_seqkey_flag. Qed.
 Print Assumptions C05_colval_seqkey_flag.
 
+(* dm.name = column (DataMatrix._set_col, translated by-reference test): the column object is entered by
+   reference only if it is one of the table's own columns, owned by the table, of its length and row-aligned. *)
+Theorem C05_setcol_by_reference_only : forall so own sl si,
+  k_setcol_by_reference so own sl si = true -> so = true /\ own = true /\ sl = true /\ si = true.
+Proof. exact setcol_by_reference_only. Qed.
+Print Assumptions C05_setcol_by_reference_only.
+
+(* Hence a column value that is NOT one of the table's own columns (dm.a / 2, dm.a @ f, dm.a[:], a column of
+   another table) is always stored through the normal form of its type. *)
+Theorem C05_setcol_not_own_nf : forall (so sl si : bool) (k2 : kind) (raw : pyv),
+  pyv_wf raw = true -> raw_ok k2 raw = true -> sl = true ->
+  res_eqv (store_setcol so false sl si k2 raw) (nf k2 raw) = true.
+Proof. exact setcol_not_own_nf. Qed.
+Print Assumptions C05_setcol_not_own_nf.
+
+Theorem C05_setcol_length : forall (so own si : bool) (k2 : kind) (raw : pyv),
+  store_setcol so own false si k2 raw = Raise ValueError.
+Proof. exact setcol_length. Qed.
+Print Assumptions C05_setcol_length.
+
 (* non-vacuity: why the flag matters -- a same-type raw copy keeps 1.0 where the normal form is 1 *)
 Example C05_ex4 : store_colval false FSlice KMixed KMixed (PFloat (FFin false 1 0)) = Ok (VFlt (FFin false 1 0))
                   /\ store_colval true FSlice KMixed KMixed (PFloat (FFin false 1 0)) = Ok (VInt 1).
@@ -105,3 +125,6 @@ Example C05_ex5 : store_colval true FSetCol KInt KFloat (PFloat (FFin false 5 (-
 Proof. vm_compute. split; reflexivity. Qed.
 Example C05_ex6 : store_k WholeScalar KFloat (PStr "x" None None) = Ok (VFlt FNan).
 Proof. vm_compute. reflexivity. Qed.
+Example C05_ex7 : store_setcol true false true true KMixed (PFloat (FFin false 1 0)) = Ok (VInt 1)
+                  /\ store_setcol true true true true KMixed (PFloat (FFin false 1 0)) = Ok (VFlt (FFin false 1 0)).
+Proof. vm_compute. split; reflexivity. Qed.
